@@ -5,6 +5,7 @@ Recognised cache stores (in any function or method):
                 instances) or an instance dict (`self._tables[key] = ...`), looked up in the same function by
                 `D[K]` under try/except KeyError, `K in D`, `K not in D` or `D.get(K)`
   global slot   `global G` ... G = (k, v)  with an earlier `return G[...]` guarded by a comparison on G
+  instance slot `if K == self._key: return self._value` ... `self._value = V; self._key = K` in one method
 
 Rules
   (1) every parameter that flows into the cached value V flows into the key K, at *component precision*: a key
@@ -112,7 +113,9 @@ def _occurrences(e: ast.AST, params: set[str]) -> dict[str, set]:
                 return
         if isinstance(n, ast.Attribute) and isinstance(n.value, ast.Name) and n.value.id in params and \
                 n.value.id != "self":
-            out.setdefault(n.value.id, set()).add("." + n.attr)
+            # x._valid_gpts is x.gpts after the "is it defined" check; x._gpts is its backing field
+            attr = n.attr[len("_valid_"):] if n.attr.startswith("_valid_") else n.attr.lstrip("_")
+            out.setdefault(n.value.id, set()).add("." + attr)
             return
         for c in ast.iter_child_nodes(n):
             visit(c)
@@ -198,6 +201,25 @@ def find_sites(repo: Repo, modules: Optional[set[str]] = None) -> list[CacheSite
                 else:
                     continue
                 sites.append(CacheSite(f, "dict", owner, d, t.slice, st.value, st))
+        # instance slot pair:  if K == self._key: return self._value  ...  self._value = V; self._key = K
+        if f.cls is not None:
+            for i_ in walk_no_nested(f.node):
+                if not (isinstance(i_, ast.If) and isinstance(i_.test, ast.Compare) and len(i_.test.ops) == 1
+                        and isinstance(i_.test.ops[0], ast.Eq)):
+                    continue
+                sides = [i_.test.left, i_.test.comparators[0]]
+                kattr = next((dotted(x) for x in sides if (dotted(x) or "").startswith("self.")
+                              and (dotted(x) or "").count(".") == 1), None)
+                rets_ = [r for r in i_.body if isinstance(r, ast.Return) and r.value is not None]
+                vattr = dotted(rets_[0].value) if rets_ else None
+                if kattr is None or vattr is None or not vattr.startswith("self.") or vattr.count(".") != 1:
+                    continue
+                kst = [st for st in walk_no_nested(f.node) if isinstance(st, ast.Assign)
+                       and any(dotted(t) == kattr for t in st.targets)]
+                vst = [st for st in walk_no_nested(f.node) if isinstance(st, ast.Assign)
+                       and any(dotted(t) == vattr for t in st.targets)]
+                if len(kst) == 1 and len(vst) == 1:
+                    sites.append(CacheSite(f, "islot", "instance", vattr, kst[0].value, vst[0].value, vst[0]))
         for g in globals_:
             stores = [st for st in walk_no_nested(f.node) if isinstance(st, ast.Assign)
                       and any(isinstance(t, ast.Name) and t.id == g for t in st.targets)]
